@@ -1,5 +1,6 @@
 """C02 parse() inverts supported unambiguous renderings: templates with symbolic digits run through the real parser."""
 import datetime
+import os
 
 from engine import chx, numtok, report
 from engine import sym as S
@@ -228,6 +229,84 @@ def h_ampm():
     return fn, types
 
 
+# ------------------------------------------------------------------ fraction scaling kernel with IEEE semantics (engine/strfp.py)
+def h_parsems(ki, kf):
+    """Native side (replay) of the _parsems obligations: the text is `ki` digits, and for kf > 0 a dot and `kf` digits."""
+    import dateutil.parser._parser as P
+    types = dict(I=int, F=int)
+
+    def fn(ctx, I, F):
+        text = "%0*d" % (ki, I) + ((".%0*d" % (kf, F)) if kf else "")
+        want_us = 0 if not kf else (F * 10 ** (6 - kf) if kf <= 6 else F // 10 ** (kf - 6))
+        got = P.parser()._parsems(text)
+        ctx.check(tuple(got) == (I, want_us), "_parsems(%r) = %r, the text denotes %d s and %d us (fractions are truncated to microseconds, never rounded)"
+                  % (text, tuple(got), I, want_us), key="parsems:%d.%d" % (ki, kf))
+        return None
+    return fn, types
+
+
+def parsems_obligations(tier):
+    """One QF_BVFP query per text shape: _parsems re-read from the current source and interpreted over digit-run terms
+    (strings) / bit-vectors (ints) / Float64 terms (floats).  unsat = the kernel returns (I, F scaled to microseconds) for
+    EVERY digit assignment of that shape; sat = a concrete text, replayed on the real function."""
+    import time
+    import z3
+    from engine import strfp
+    path = chx.REPO_SRC + "/dateutil/parser/_parser.py"
+    out = []
+    shapes = [(ki, kf) for ki in (1, 2) for kf in ((0, 1, 3, 4, 5, 6, 7) if tier == "quick" else range(0, 13))]
+    for (ki, kf) in shapes:
+        name = "parsems[%d.%d]" % (ki, kf)
+        r = dict(name=name, cell=dict(module=M, factory="h_parsems", params=chx.enc(dict(ki=ki, kf=kf))), paths=1, confirmed=0, unknown=0,
+                 ignored=0, violations=[], errors=[], witnesses=0, reached=1, samples=[], queries=0, solver_s=0.0, sites=[], decisions=1,
+                 cpu_s=0.0, exhausted=False, unknown_where=[], twin_refuted=True)
+        t0 = time.time()
+        try:
+            I = z3.BitVec("I", strfp.W)
+            Fv = z3.BitVec("F", strfp.W)
+            pieces = [strfp.Digits(I, ki)] + ([".", strfp.Digits(Fv, kf)] if kf else [])
+            got = strfp.Interp(path, "parser._parsems").call(strfp.DStr(pieces))
+            if not (isinstance(got, tuple) and len(got) == 2):
+                raise strfp.Unsupported("result shape")
+            it = strfp.Interp(path, "parser._parsems")
+            sec, us = it.as_int(got[0]), it.as_int(got[1])
+            want = strfp.bv(0) if not kf else (Fv * strfp.bv(10 ** (6 - kf)) if kf <= 6 else z3.UDiv(Fv, strfp.bv(10 ** (kf - 6))))
+            sv = z3.Solver()
+            sv.set(timeout=120000)
+            sv.add(z3.ULT(I, strfp.bv(10 ** ki)), z3.ULT(Fv, strfp.bv(10 ** max(kf, 1))))
+            if not kf:
+                sv.add(Fv == 0)
+            sv.add(z3.Or(sec != I, us != want))
+            res = str(sv.check())
+            r["queries"] = 1
+            if res == "unsat":
+                r["confirmed"], r["exhausted"] = 1, True
+            elif res == "sat":
+                m = sv.model()
+                args = dict(I=m.eval(I, model_completion=True).as_long(), F=m.eval(Fv, model_completion=True).as_long())
+                fn, _t = h_parsems(ki, kf)
+                try:
+                    fn(chx.Ctx(False), **args)
+                    r["errors"].append(dict(kind="non-reproducing-counterexample", args=args, msg="strfp model of _parsems disagrees with the real function"))
+                except chx.Violation as v:
+                    r["violations"].append(dict(args=chx.enc(args), msg=v.msg, key=v.key, info={}))
+                    r["exhausted"] = True
+                    r["witnesses"] = 1
+            else:
+                r["unknown"] = 1
+                r["unknown_where"] = ["solver: " + res]
+        except strfp.Unsupported as e:
+            r["unknown"] = 1
+            r["unknown_where"] = ["_parsems uses a construct outside the digit-string interpreter: %s" % e]
+        r["solver_s"] = r["cpu_s"] = round(time.time() - t0, 2)
+        try:
+            r["sites"] = ["%s:%d" % (path, strfp.Interp(path, "parser._parsems").fn.lineno + 1)]
+        except strfp.Unsupported:
+            pass
+        out.append(r)
+    return out
+
+
 def cells(tier):
     q = tier == "quick"
     cs = []
@@ -250,9 +329,11 @@ ASSUMPTIONS = [
     "positional integer value, fork-free monthrange, tzoffset without the instance cache)",
     "month and weekday NAMES are enumerated inside templates (a name is not a number)",
     "two-digit-year templates: the parserinfo's current year is a solver variable in 1950..2150",
+    "_parsems obligations (engine/strfp.py): the kernel is re-read from the source and interpreted over digit-run terms; float() of a digit text is the correctly rounded "
+    "quotient (IEEE-754 binary64, round-to-nearest-even), int() truncates; digit runs of at most 15 digits; a sat answer is replayed on the real method",
     "`time.tzname` as seen from the parser is fixed to ('LCL', 'LCD'): the process zone's names are not UTC aliases (local-name precedence is C15's subject)",
 ]
-OUTSIDE = ["free-form text, locale names via custom parserinfo", "fractions > 6 digits", "bytes / stream input equivalence", "templates outside the list"]
+OUTSIDE = ["free-form text, locale names via custom parserinfo", "fractions > 6 digits in the template cells (the _parsems kernel obligations go to 7 / 12 digits)", "bytes / stream input equivalence", "templates outside the list"]
 
 
 def run(tier, seed, jobs):
@@ -260,6 +341,8 @@ def run(tier, seed, jobs):
     errs = [dict(kind="stub-validation", stub="split_stub", sample=repr(b)) for b in bad[:5]]
     cs = report.filter_cells(cells(tier))
     res = chx.run_cells(cs, jobs)
+    if not os.environ.get("VERIF_ONLY") or "parsems" in os.environ.get("VERIF_ONLY", ""):
+        res = res + parsems_obligations(tier)
     return report.aggregate("C02", res, assumptions=ASSUMPTIONS, bounds=dict(templates=len(cs) - 3), outside=OUTSIDE,
                             stubs=["split_stub", "NumTok", "Decimal/int/float models", "monthrange", "tz shim"], extra_errors=errs,
                             stub_validation=dict(split_stub=dict(cases=n, mismatches=len(bad))))
